@@ -45,6 +45,10 @@ pub struct SessionCase {
     /// outlive every HTTP time limit
     #[serde(default)]
     pub ws_linger: bool,
+    /// the server process starts with SIGINT *ignored* (a background job of a non-interactive shell, a `nohup`-style
+    /// supervisor): `howl` installs its handler all the same
+    #[serde(default)]
+    pub sigint_ignored_at_start: bool,
 }
 
 // ---------------------------------------------------------------- part 1: controller
@@ -659,7 +663,17 @@ fn run_sessions(sc: &SessionCase, obs: &mut Obs) {
     let (mut child, port) = loop {
         attempt += 1;
         let port = 21000 + ((std::process::id() as usize * 131 + PORT_SEQ.fetch_add(1, Ordering::SeqCst) * 17) % 30000) as u16;
-        let mut proc = std::process::Command::new(std::env::current_exe().unwrap())
+        let mut cmd = std::process::Command::new(std::env::current_exe().unwrap());
+        if sc.sigint_ignored_at_start {
+            use std::os::unix::process::CommandExt;
+            unsafe {
+                cmd.pre_exec(|| {
+                    libc::signal(libc::SIGINT, libc::SIG_IGN);
+                    Ok(())
+                });
+            }
+        }
+        let mut proc = cmd
             .args(["c18-child", &port.to_string()])
             .env("OHKAMI_KEEPALIVE_TIMEOUT", if ws { "1" } else { "30" })
             .stdin(std::process::Stdio::piped())
@@ -899,7 +913,7 @@ fn run_sessions(sc: &SessionCase, obs: &mut Obs) {
 impl Property for C18 {
     type Case = Case;
     const ID: &'static str = "C18";
-    const RULE: &'static str = "enumerated: every interleaving of the 4 steps of the real interrupt closure (H0 store flag, H1 take waker, H2 wake, H3 done — run on ctrlc's thread after a real raise(SIGINT)) with up to 9 steps of the accept loop (P0 poll begins, P1 accept returned Pending, P2 between flag load and waker publish; three polls) under a controller that grants one step at a time (hook H5) — 715 schedules, complete for that bound; generated: longer schedules (up to 24 grants) and child-process cases (a real howl with n ∈ 0–6 blocked in-flight sessions, real SIGINT, generated release order, 0–3 connection attempts after the accept loop left; some sessions' handlers panic while in flight; a tenth of the cases uses 1–3 WebSocket sessions, a keep-alive timeout of 1 s and lets 1.7 s pass after the interrupt before releasing them). Oracle part 1 (no wall clock): at quiescence the loop has exited or a wake was delivered since its last poll began; `parked ∧ flag set ∧ no wake` is the lost interrupt. Oracle part 2: every in-flight request receives its complete response although the process exits as soon as howl returns; howl has not returned while a session is blocked or open; it returns after the last one ended; attempts after the accept loop left are not served. Non-trivial = a schedule with a handler step between P1 and the end of that poll, or n ≥ 2 with a release order different from the accept order; distinct by case.";
+    const RULE: &'static str = "enumerated: every interleaving of the 4 steps of the real interrupt closure (H0 store flag, H1 take waker, H2 wake, H3 done — run on ctrlc's thread after a real raise(SIGINT)) with up to 9 steps of the accept loop (P0 poll begins, P1 accept returned Pending, P2 between flag load and waker publish; three polls) under a controller that grants one step at a time (hook H5) — 715 schedules, complete for that bound; generated: longer schedules (up to 24 grants) and child-process cases (a real howl with n ∈ 0–6 blocked in-flight sessions, real SIGINT, generated release order, 0–3 connection attempts after the accept loop left; some sessions' handlers panic while in flight; a tenth of the children start with SIGINT ignored (inherited disposition); a tenth of the cases uses 1–3 WebSocket sessions, a keep-alive timeout of 1 s and lets 1.7 s pass after the interrupt before releasing them). Oracle part 1 (no wall clock): at quiescence the loop has exited or a wake was delivered since its last poll began; `parked ∧ flag set ∧ no wake` is the lost interrupt. Oracle part 2: every in-flight request receives its complete response although the process exits as soon as howl returns; howl has not returned while a session is blocked or open; it returns after the last one ended; attempts after the accept loop left are not served. Non-trivial = a schedule with a handler step between P1 and the end of that poll, or n ≥ 2 with a release order different from the accept order; distinct by case.";
     const ASSUMPTIONS: &'static [&'static str] = &[
         "sequentially consistent interleavings at the granularity of the hook points (the code uses SeqCst throughout)",
         "only the tokio runtime; the glommio variant (mutex-based) is not exercised",
@@ -934,7 +948,7 @@ impl Property for C18 {
         prop_oneof![
             5 => vec(prop::bool::weighted(0.3), 4..=24).prop_map(Case::Schedule),
             3 => (0u8..4, vec(prop_oneof![3 => Just(0u8), 2 => Just(1u8), 1 => 2u8..5], 0..=14)).prop_map(|(sessions, script)| Case::Drain { sessions, script }),
-            1 => (0u8..7, 0u8..4, any::<u64>(), 0u8..3, prop_oneof![3 => Just(0u8), 2 => any::<u8>()], prop::bool::weighted(0.1)).prop_map(|(before, after, release_seed, release_early, panic_mask, ws_linger)| Case::Sessions(SessionCase { before, after, release_seed, release_early, panic_mask, ws_linger })),
+            1 => (0u8..7, 0u8..4, any::<u64>(), 0u8..3, prop_oneof![3 => Just(0u8), 2 => any::<u8>()], prop::bool::weighted(0.1), prop::bool::weighted(0.1)).prop_map(|(before, after, release_seed, release_early, panic_mask, ws_linger, sigint_ignored_at_start)| Case::Sessions(SessionCase { before, after, release_seed, release_early, panic_mask, ws_linger, sigint_ignored_at_start })),
         ]
         .boxed()
     }
@@ -959,6 +973,9 @@ impl Property for C18 {
             }
             Case::Sessions(sc) => {
                 obs.label(if sc.ws_linger { "websocket-sessions" } else { "sessions" });
+                if sc.sigint_ignored_at_start {
+                    obs.label("sigint-ignored-at-start");
+                }
                 let before = if sc.ws_linger { 1 + (sc.before % 3) as usize } else { (sc.before % 7) as usize };
                 let order = crate::harness::app::permutation(before, sc.release_seed);
                 obs.nontrivial = before >= 2 && order.iter().enumerate().any(|(i, o)| i != *o);
